@@ -251,15 +251,14 @@ def find_leaf(obj, name):
 def order_ok(records, order):
     """Is `records` sorted by the (attribute, 'asc'|'desc') tuples (ties free)? Returns (ok, reason).
 
-    Records lacking an order attribute make the requested order undefined -> any sequence is accepted."""
+    Where a record lacks an order attribute its position is not defined by the statement: such records are skipped and
+    the remaining ones (which carry every requested attribute - including falsy values such as 0, False, "") must be
+    mutually ordered."""
     keys = []
     for r in records:
-        ks = []
-        for attr, _d in order:
-            v = find_leaf(r, attr)
-            if v is MISSING:
-                return True, "undefined"
-            ks.append(v)
+        ks = [find_leaf(r, attr) for attr, _d in order]
+        if any(v is MISSING or v is None for v in ks):
+            continue
         keys.append(ks)
     for a, b in zip(keys, keys[1:]):
         for (x, y), (_attr, d) in zip(zip(a, b), order):
